@@ -70,6 +70,9 @@ def _run_binary(binary, lines, timeout, isolate_crash=True):
     case without a result is reported as ['crash'] and the rest is re-run."""
     results = {}
     pending = list(lines)
+    if not os.path.exists(binary):
+        # the harness (or model) could not be built against this tree: nothing can be concluded from these cases
+        return {ln.split(" ")[1]: ["noresult"] for ln in pending if len(ln.split(" ")) > 1}
     d = tempfile.mkdtemp(prefix="run-", dir=BUILD)
     try:
         while pending:
